@@ -54,12 +54,26 @@ CHECKS["C18"] = ("fault_enumeration", "deterministic simulation with a lying chi
  "Trusted: chip models in lying mode, canary pattern. The adapter is driven through PhyRxTx directly (no MAC above it).", "6 (C18)")
 PENDING = {}
 
+# additions of the full-stack configuration and later extensions (appended to technique / level text)
+TECH_SUFFIX = {
+ "C09": "; in full-stack runs (the real lora-phy adapter, mode layer and SX126x/SX127x driver on a simulated chip under the real MAC) the frequency, modulation, payload and PA power the chip is programmed with when the transmission starts are compared with the TxConfig",
+ "C10": "; in full-stack runs (real lora-phy on a simulated chip under the real MAC) the frequency and modulation the chip is programmed with when each reception starts are compared with the RxConfig, and a receiver that refuses to listen is reported",
+ "C04": "; part of the runs use the full stack (real lora-phy on a simulated chip: panics and hangs of the drivers under MAC-driven sequences and transport faults), small radio buffers and a one-entry downlink queue",
+ "C06": "; outages (several consecutive failing radio calls) and, in full-stack runs, SPI / IRQ transport faults inside the real lora-phy calls",
+}
+TEXT_SUFFIX = {
+ "C09": " In the full-stack configuration (about one run in six) the same monitor is applied one level down: what the real driver wrote into the chip model at the moment of SetTx / mode TX (frequency, SF, bandwidth, coding rate, FIFO content, PA selection decoded per datasheet) must agree with the TxConfig and must not select more power than it asks for.",
+ "C10": " In the full-stack configuration (about one run in five) what the real driver wrote into the chip model at every reception start (frequency, SF, bandwidth, coding rate) must agree with the RxConfig of the window / of the Class C listening in force, and an accepted configuration must actually lead to a listening chip.",
+}
+
 def main():
     props = [json.loads(l)["id"] for l in open("/verif/properties.jsonl")]
     checks = []
     for pid in props:
         if pid in CHECKS:
             level, tech, text, note, ref = CHECKS[pid]
+            tech += TECH_SUFFIX.get(pid, "")
+            text += TEXT_SUFFIX.get(pid, "")
             checks.append({
                 "property_id": pid,
                 "quick_cmd": f"./check {pid} quick",
